@@ -205,7 +205,9 @@ def quick_sets(scalar=False):
 def quick_configs(scalar=False, clang=True, stds=True):
     cfgs = [Config(s) for s in quick_sets(scalar)]
     if clang:
-        cfgs += [Config([], "clang"), Config(FULL, "clang"), Config(["SSE2"], "clang"), Config(["AVX2", "FMA"], "clang")]
+        # every arm-cover set again with Clang: an arm may depend on the compiler as well as on the feature macros (seed C01-d: a fallback guarded by
+        # the raw __GNUC__ version, which Clang reports as 4)
+        cfgs += [Config(s, "clang") for s in ARM_COVER]
     if stds:
         cfgs += [Config([], "gcc", 17), Config([], "gcc", 20), Config(["SSE2"], "gcc", 20), Config(FULL, "gcc", 20)]
     return uniq(cfgs)
